@@ -181,7 +181,12 @@ def build(raw: dict):
     theta = [float(Fraction(*t)) for t in raw['theta']]
     with warnings.catch_warnings():
         warnings.simplefilter('ignore')  # ill-conditioned matrix warnings of scipy (patched variants of the code)
-        return bioResults(RawResults(model, theta, fgHb, bootstrap=boot), identification_threshold=1e-5)
+        # the identification threshold only decides which eigenvalues are REPORTED as an identification issue: no
+        # statistic depends on it.  Half of the outcomes are built with a threshold above every eigenvalue.
+        import zlib
+
+        thr = 1e-5 if zlib.crc32(repr(sorted(raw.items(), key=lambda kv: kv[0])).encode()) % 2 == 0 else 1000.0
+        return bioResults(RawResults(model, theta, fgHb, bootstrap=boot), identification_threshold=thr)
 
 
 # ------------------------------------------------------------------ resolving the spec's quantity references
